@@ -18,7 +18,8 @@ EXPLANATION = (
     "receives the subsample, and the parser stages run on the full object before subsampling; (R2) no backend validate "
     "returns the subsample: the returned name never derives from a subsample() result; (R3) in both subsample "
     "implementations head / tail / sample are each applied under `<option> is not None` to the full object, "
-    "random_state reaches .sample(), and without options the object itself is returned; (R4) rows selected twice are "
+    "random_state reaches .sample(), and the whole object is returned exactly when no option was requested (never "
+    "because the requested counts merely add up to len(object)); (R4) rows selected twice are "
     "de-duplicated by position - de-duplication by index label (index.duplicated) or by row value (.unique() / "
     "drop_duplicates) removes legitimately distinct rows. NOT decided: verdict equality with the explicitly subsampled "
     "frame on data."
